@@ -31,6 +31,9 @@ type op struct {
 	K string `json:"k"` // "u" fixed width, "f" flag, "ue", "se", "sei" (ff_byte run coding of SEI type/size, ebsp writer only)
 	W int    `json:"w,omitempty"`
 	V int64  `json:"v"`
+	// B ("b" only, ebsp writer): a run of whole bytes written one by one at the current (any) bit alignment and read
+	// back with one EBSPReader.ReadBytes call
+	B harness.HexBytes `json:"b,omitempty"`
 }
 
 type opsCase struct {
@@ -50,7 +53,7 @@ func genOps(t *rapid.T) opsCase {
 	c := opsCase{Writer: rapid.SampledFrom([]string{"ebsp", "ebsp", "plain", "fsw"}).Draw(t, "writer")}
 	n := rapid.IntRange(1, 40).Draw(t, "n")
 	for i := 0; i < n; i++ {
-		kinds := []string{"u", "u", "f", "ue", "se", "z", "sei"}
+		kinds := []string{"u", "u", "f", "ue", "se", "z", "sei", "b"}
 		if c.Writer != "ebsp" {
 			kinds = []string{"u", "u", "f", "z"}
 		}
@@ -65,6 +68,10 @@ func genOps(t *rapid.T) opsCase {
 			c.Ops = append(c.Ops, op{K: "u", W: w, V: int64(v & (1<<uint(w) - 1))})
 		case "f":
 			c.Ops = append(c.Ops, op{K: "f", V: int64(rapid.IntRange(0, 1).Draw(t, "b"))})
+		case "b":
+			n := rapid.SampledFrom([]int{1, 2, 7, 8, 9, 15, 16, 17, 24, 40}).Draw(t, "nbytes")
+			run := rapid.SliceOfN(rapid.OneOf(rapid.SampledFrom([]byte{0, 0, 1, 3, 0xff, 0x80}), rapid.Byte()), n, n).Draw(t, "run")
+			c.Ops = append(c.Ops, op{K: "b", B: run})
 		case "ue":
 			v := rapid.OneOf(rapid.Uint64Range(0, 40), rapid.Uint64Range(0, 1<<32-2),
 				rapid.SampledFrom([]uint64{0, 1, 2, 6, 7, 8, 254, 255, 256, 65534, 65535, 65536, 1<<31 - 2, 1<<31 - 1, 1 << 31, 1<<32 - 3, 1<<32 - 2})).Draw(t, "ue")
@@ -104,6 +111,8 @@ func refBits(ops []op) (rbsp []byte, ends []int) {
 			w.UE(uint64(o.V))
 		case "se":
 			w.SE(o.V)
+		case "b":
+			w.Bytes(o.B)
 		case "sei":
 			// while (v >= 255) { ff_byte; v -= 255 }  last_payload_*_byte = v: v/255 bytes FF, then v%255
 			for i := int64(0); i < o.V/255; i++ {
@@ -138,6 +147,10 @@ func checkOps(c opsCase) *harness.Fail {
 				w.WriteExpGolomb(uint(o.V))
 			case "se":
 				w.WriteExpGolomb(uint(nalgen.SEMap(o.V)))
+			case "b":
+				for _, x := range o.B {
+					w.Write(uint(x), 8)
+				}
 			case "sei":
 				w.WriteSEIValue(uint(o.V))
 			}
@@ -196,6 +209,10 @@ func checkOps(c opsCase) *harness.Fail {
 				v = int64(r.ReadExpGolomb())
 			case "se":
 				v = int64(r.ReadSignedGolomb())
+			case "b":
+				if back := r.ReadBytes(len(o.B)); !bytes.Equal(back, o.B) {
+					return harness.Failf("C13|EBSPReader.ReadBytes|bytes differ", "op %d at rbsp bit %d: ReadBytes(%d) = %x, written %x (err %v, stream %x)", i, ends[i]-8*len(o.B), len(o.B), back, []byte(o.B), r.AccError(), got)
+				}
 			case "sei":
 				for {
 					b := r.Read(8)
